@@ -12,7 +12,9 @@ import PsutilModel.Proofs.C10Front
 import PsutilModel.Proofs.C10Conc
 import PsutilModel.Proofs.C10Dict
 import PsutilModel.Proofs.C10Sample
+import PsutilModel.Proofs.C10Out
 import PsutilModel.Model.C10Gen
+import PsutilModel.Spec.C10Plat
 namespace Psutil.C10
 open Spec
 
@@ -392,6 +394,106 @@ theorem C10_forms_independent (c : Cfg) (h : List Op) (mid : List Listing) (nowr
   subst hop
   simp [snapsStep]
 
+/-! ## Clause 1 at the level of what the caller and the kernel see -/
+
+theorem lowerAll_append (c : Cfg) (a b : List FOp) : lowerAll c (a ++ b) = lowerAll c a ++ lowerAll c b := by
+  simp [lowerAll]
+
+/-- **C10_outputs_monotone.** The first clause of the property, composed, about the *return values*
+    of the public functions of the code as extracted (`cfg`), for BOTH functions: after any public
+    history `fh`, take a per-device `nowrap=True` call of `fn` (kernel listing `l1`), then any public
+    operations `mid` across which device `k` *stays present* (`Spec.StaysListed`, kernel-listing level:
+    every `nowrap=True` call of `fn`, per-device or system-wide, finds `k` listed; no `fn.cache_clear()`;
+    anything of the other function, any `nowrap=False` call), then another per-device `nowrap=True`
+    call (listing `l2`). Both calls return dicts that contain `k`, and no counter of `k` is lower in the
+    second than in the first. Hypothesis `hw`: the tuples handed to one cache slot have one width and
+    device names are unique per snapshot (true of every platform layer; outside it the abstract model
+    `step` is not faithful to the code — `C10_concrete_refines` has the same hypothesis). -/
+theorem C10_outputs_monotone (w : Name → Nat) (fh mid : List FOp) (fn : Fn) (l1 l2 : Listing) (k : Key)
+    (hw : ∀ op ∈ lowerAll cfg ((fh ++ FOp.call ⟨fn, true, true, l1⟩ :: mid) ++ [FOp.call ⟨fn, true, true, l2⟩]),
+      OpW w op)
+    (hl1 : ∃ e ∈ l1, e.1 = k) (hl2 : ∃ e ∈ l2, e.1 = k)
+    (hmid : ∀ op ∈ mid, StaysListed fn k op) :
+    ∃ r1 r2 v1 v2,
+      (fstep cfg (frun cfg St.init fh) (.call ⟨fn, true, true, l1⟩)).2 = .dict r1
+      ∧ (fstep cfg (frun cfg St.init (fh ++ FOp.call ⟨fn, true, true, l1⟩ :: mid))
+          (.call ⟨fn, true, true, l2⟩)).2 = .dict r2
+      ∧ r1.lookup k = some v1 ∧ r2.lookup k = some v2
+      ∧ v1.length = w (slotOf cfg fn true) ∧ v2.length = w (slotOf cfg fn true)
+      ∧ ∀ i, tupleAt v1 i ≤ tupleAt v2 i := by
+  have hcons : ∀ (x : FOp) (xs : List FOp), x :: xs = [x] ++ xs := fun _ _ => rfl
+  rw [hcons _ mid, lowerAll_append, lowerAll_append, lowerAll_append] at hw
+  have hw0 : ∀ op ∈ lowerAll cfg fh, OpW w op := fun op h => hw op (by simp [h])
+  have hwm : ∀ op ∈ lowerAll cfg mid, OpW w op := fun op h => hw op (by simp [h])
+  have hwc1 : OpW w (.call (slotOf cfg fn true) true (platRaw cfg fn true l1)) :=
+    hw _ (by simp [lowerAll, lower])
+  have hwc2 : OpW w (.call (slotOf cfg fn true) true (platRaw cfg fn true l2)) :=
+    hw _ (by simp [lowerAll, lower])
+  have hwh : ∀ op ∈ lowerAll cfg (fh ++ FOp.call ⟨fn, true, true, l1⟩ :: mid), OpW w op := by
+    intro op h
+    rw [hcons _ mid, lowerAll_append, lowerAll_append] at h
+    exact hw op (by simp only [List.mem_append] at h ⊢; exact Or.inl h)
+  obtain ⟨o1, ho1⟩ := lookup_listed l1 k hl1
+  obtain ⟨o2, ho2⟩ := lookup_listed l2 k hl2
+  rw [← platRaw_perdev cfg fn l1] at ho1
+  rw [← platRaw_perdev cfg fn l2] at ho2
+  have hne1 : platRaw cfg fn true l1 ≠ [] := by intro h; rw [h] at ho1; simp at ho1
+  have hne2 : platRaw cfg fn true l2 ≠ [] := by intro h; rw [h] at ho2; simp at ho2
+  have e1 := C10_front_refines w fh fn true l1 hw0 hwc1.1 hwc1.2 hne1
+  have e2 := C10_front_refines w (fh ++ FOp.call ⟨fn, true, true, l1⟩ :: mid) fn true l2 hwh hwc2.1 hwc2.2 hne2
+  simp only [shape, if_true] at e1 e2
+  obtain ⟨v1, hv1, hlen1, hval1⟩ := lookup_expected (lowerAll cfg fh) (slotOf cfg fn true) _ k o1 ho1
+  obtain ⟨v2, hv2, hlen2, hval2⟩ :=
+    lookup_expected (lowerAll cfg (fh ++ FOp.call ⟨fn, true, true, l1⟩ :: mid)) (slotOf cfg fn true) _ k o2 ho2
+  have hlo1 : o1.length = w (slotOf cfg fn true) := hwc1.1 _ (mem_of_lookup ho1)
+  have hlo2 : o2.length = w (slotOf cfg fn true) := hwc2.1 _ (mem_of_lookup ho2)
+  refine ⟨_, _, v1, v2, e1, e2, hv1, hv2, by omega, by omega, ?_⟩
+  intro i
+  by_cases hi : i < w (slotOf cfg fn true)
+  · rw [hval1, hval2]
+    obtain ⟨S, hS, hSp⟩ := snaps_mid cfg cfg_forms_good.1 fn k mid hmid
+      (platRaw cfg fn true l1 :: snapsOf (slotOf cfg fn true) (lowerAll cfg fh))
+    have hsn : snapsOf (slotOf cfg fn true) (lowerAll cfg (fh ++ FOp.call ⟨fn, true, true, l1⟩ :: mid))
+        = S ++ platRaw cfg fn true l1 :: snapsOf (slotOf cfg fn true) (lowerAll cfg fh) := by
+      rw [hcons _ mid, lowerAll_append, lowerAll_append, ← hS]
+      simp [snapsOf, lowerAll, lower, snapsStep]
+    rw [hsn]
+    exact valueAt_chain (w (slotOf cfg fn true)) k i hi _ _ o1 hwc1.1 ho1 S
+      (fun r hr => ⟨(hSp r hr).1, (hwm _ (hSp r hr).2).1⟩) _ o2 hwc2.1 ho2
+  · have a : tupleAt v1 i = 0 := by
+      simp only [tupleAt, List.getD_eq_getElem?_getD]
+      rw [List.getElem?_eq_none (by omega)]; rfl
+    rw [a]; exact Nat.zero_le _
+
+/-- **C10_floor_sound.** The same with "stays present" computed by `Spec.prevPresent` on the
+    kernel-listing-level past (`Spec.pastOf`: per operation only function, `nowrap`, form and the NAMES
+    the kernel listed) — the lower bound the correspondence check applies to every per-device
+    `nowrap=True` result of the real functions (`floorOf` in Driver/C10.lean): if `prevPresent` finds
+    entry `j`, then entry `j` is a per-device `nowrap=True` call of the same function, both calls
+    returned dicts containing `k`, and no counter of `k` is lower now than then. -/
+theorem C10_floor_sound (w : Name → Nat) (fh : List FOp) (fn : Fn) (l2 : Listing) (k : Key) (j : Nat)
+    (hw : ∀ op ∈ lowerAll cfg (fh ++ [FOp.call ⟨fn, true, true, l2⟩]), OpW w op)
+    (hl2 : ∃ e ∈ l2, e.1 = k) (hp : prevPresent k (pastOf fn fh) = some j) :
+    ∃ pre l1 mid r1 r2 v1 v2,
+      fh = pre ++ FOp.call ⟨fn, true, true, l1⟩ :: mid ∧ (pastOf fn mid).length = j
+      ∧ (fstep cfg (frun cfg St.init pre) (.call ⟨fn, true, true, l1⟩)).2 = .dict r1
+      ∧ (fstep cfg (frun cfg St.init fh) (.call ⟨fn, true, true, l2⟩)).2 = .dict r2
+      ∧ r1.lookup k = some v1 ∧ r2.lookup k = some v2 ∧ ∀ i, tupleAt v1 i ≤ tupleAt v2 i := by
+  obtain ⟨pre, l1, mid, hfh, hl1, hmid, hlen⟩ := prevPresent_split fn k fh j hp
+  subst hfh
+  obtain ⟨r1, r2, v1, v2, a, b, c, d, _, _, e⟩ := C10_outputs_monotone w pre mid fn l1 l2 k hw hl1 hl2 hmid
+  exact ⟨pre, l1, mid, r1, r2, v1, v2, rfl, hlen, a, b, c, d, e⟩
+
+/-- non-vacuity (net, a system-wide call and a call of the other function in between; two wraps):
+    `eth0` 100 → (total call, 10: wrapped) → 5 (wrapped again) is reported as 100, then 115 -/
+example :
+    let fh : List FOp := [.call ⟨.net, true, true, [("eth0", true, [100]), ("lo", true, [7])]⟩,
+      .call ⟨.net, true, false, [("eth0", true, [10])]⟩, .call ⟨.disk, true, true, [("sda", true, [3])]⟩,
+      .call ⟨.net, false, true, []⟩]
+    prevPresent "eth0" (pastOf .net fh) = some 2
+    ∧ (fstep cfg (frun cfg St.init fh) (.call ⟨.net, true, true, [("eth0", true, [5])]⟩)).2
+        = .dict [("eth0", [115])] := by decide
+
 /-! ## Concurrency -/
 
 /-- **C10_serialisable.** Any number of threads, any programs, any interleaving of their actions
@@ -503,8 +605,11 @@ theorem C10_lock_order_is_not_sampling_order :
     have h1 := (hfull (fun _ => 1) _ s hrun).1.1
     simp [hrun, h1] at key
 
-/-- (fix 875e1d0 landed) obligation fed by the translator fact `sampleUnderLock`: in both front ends the platform call and
-    the `wrap_numbers` call sit inside one `with <module-level threading.Lock()>:` when `nowrap` -/
+/-- (fix 875e1d0 landed) obligation fed by the translator facts `sampleUnderLockDisk`, `sampleUnderLockNet`,
+    `samplingLocks` (each front end is judged on its own): in `disk_io_counters` AND in `net_io_counters` the platform
+    call and the `wrap_numbers` call it feeds sit inside one `with <module-level threading.Lock()>:` when `nowrap`,
+    and it is the same lock object for both (the first conjunct of `C10_concurrent_Full` is ONE sampling order
+    over both functions: a per-function lock would make it false). -/
 theorem cfg_sample_under_lock : cfg.SampleGood := by unfold Cfg.SampleGood; decide
 
 /-- **C10_concurrent_full_strength_cfg.** The concurrent clause at full strength for the code as it is now. -/
@@ -677,6 +782,51 @@ theorem C10_indexerror_keeps_cache (c : Cfg) (w : CWN) (input : Raw)
             cases o with
             | none => simp
             | some out => simp [h1] at h
+
+/-! ## Closed world, transcribed bodies, raw kernel values (round 3) -/
+
+/-- obligation fed by the facts `wrapNumbersRefs`, `wnRefs`, `nowrapLockRefs`, `cacheNameRefs`: in all of
+    `psutil/**/*.py` the only callers of `wrap_numbers` are the two front ends (one call each), its
+    `cache_clear` is only reached through the two `cache_clear` attributes, `_wn` is only used by
+    `wrap_numbers` (`_wn.lock`, `_wn.run`) and the two attribute assignments, `_nowrap_lock` only by the two
+    `with` statements, and the cache-name strings occur nowhere else. A third caller (which would share a
+    name and bypass the sampling lock: clauses 6 and 7) breaks it. -/
+theorem cfg_closed_world : users = modelledUsers := by decide
+
+/-- obligation fed by the facts `astRun`, `astRemoveDead`, `astAddDict`, `astCacheClear`: the bodies of
+    `_WrapNumbers.run`, `_remove_dead_reminders`, `_add_dict`, `cache_clear` are, up to comments, docstrings
+    and layout, the text Model/C10 and Model/C10Dict transcribe. ANY edit of these bodies breaks it (an added
+    eviction of `reminders`, a time-based expiry …); a harmless one then ends in `no-failing-input-found`. -/
+theorem cfg_transcribed_bodies : bodies = transcribedBodies := by decide
+
+/-- **C10_raw_is_kernel_value.** Fed by the fact `diskstatsLayouts` (the if/elif chain of
+    `_pslinux.disk_io_counters.read_procfs()`): for every line layout the kernel writes to /proc/diskstats
+    (7 fields: partition line of 2.6.0–2.6.24; 14; 18 since 4.18; 20 since 5.5; any longer line of a
+    future kernel) the branch table takes the device name from field 2 and every counter from the field the
+    kernel documentation gives it (sectors × 512; the 7-field line has no times / merges: 0). So the "raw
+    kernel value" the theorems above speak about is the kernel's figure for each of these layouts. -/
+theorem C10_raw_is_kernel_value (vals : List Nat) (h : isKernelLineLength vals.length = true) :
+    countersOf layouts vals = some (kernelNameIdx, kernelCounters vals) := by
+  simp only [isKernelLineLength, Bool.or_eq_true, decide_eq_true_eq] at h
+  rcases h with (h | h) | h
+  · simp [countersOf, layoutFor, layouts, Gen.C10.diskstatsLayouts, guardHolds, h, kernelNameIdx,
+      kernelCounters, sectorSize, List.mapIdx_cons]
+  · simp [countersOf, layoutFor, layouts, Gen.C10.diskstatsLayouts, guardHolds, h, kernelNameIdx,
+      kernelCounters, sectorSize, List.mapIdx_cons]
+  · have h15 : vals.length ≠ 15 := by omega
+    have h7 : vals.length ≠ 7 := by omega
+    simp [countersOf, layoutFor, layouts, Gen.C10.diskstatsLayouts, guardHolds, h, h15, h7, kernelNameIdx,
+      kernelCounters, sectorSize, List.mapIdx_cons]
+
+/-- a line with a number of fields the kernel never writes (and that is not psutil's own 15-field case)
+    is rejected (`ValueError`), not guessed at -/
+theorem C10_unknown_diskstats_layout (flen : Nat) (h : flen < 18) (h7 : flen ≠ 7) (h14 : flen ≠ 14)
+    (h15 : flen ≠ 15) : layoutFor layouts flen = none := by
+  have : ¬ 18 ≤ flen := by omega
+  simp [layoutFor, layouts, Gen.C10.diskstatsLayouts, guardHolds, h7, h14, h15, this]
+
+example : countersOf layouts [8, 1, 0, 11, 12, 13, 14] = some (2, [11, 13, 12 * 512, 14 * 512, 0, 0, 0, 0, 0]) := by
+  decide
 
 /-! ## Non-vacuity and the reason `cfg_good` matters -/
 
